@@ -81,6 +81,7 @@ func (m *memConn) Close() error                { return nil }
 
 func main() {
 	run := vr.New("C03", "exploration")
+	defer run.Recover()
 	freepass.MaybeReplay(run)
 	run.Rule("dimensions auth key(4) x salt(6) x session id(6) x msg_id(4) x seq_no(5) x ack(2) x cached key-id field(3: right, empty, stale) at <=2 deviations from the first value of each, crossed fully with every body length 0..N (so every padding amount 0..15); both directions; the same cases through transport.WriteMsg/ReadMsg on an injected connection for a sub-range; unencrypted messages for every length. non-trivial = distinct case where the repository function returned and the oracle compared fields")
 	run.Assume("reference R2 (harness/ref/mtp1) implements MTProto 1.0 (description_v1)", "transport level uses the real transport and intermediate mode over an in-memory connection (overlay-added constructor)")
@@ -158,6 +159,8 @@ func main() {
 					run.Violation("s2c|panic|"+vr.MsgClass(pm)+"|"+fr, id+": panic "+pm, rep)
 				case err != nil:
 					run.Violation(fmt.Sprintf("s2c|error|%s|pad=%d", vr.MsgClass(err.Error()), mtp1.PadLen(n)), id+": "+err.Error(), rep)
+				case got == nil:
+					run.Violation("s2c|nothing-returned", id+": neither a message nor an error", rep)
 				default:
 					g := mtp1.Msg{Salt: got.Salt, Session: got.SessionID, MsgID: got.MsgID, SeqNo: got.SeqNo, Body: got.Msg}
 					if !g.Equal(m) {
